@@ -5,12 +5,12 @@ C06, part 2: every operation of the state machine respects `ObsR`.
 namespace Infretis.Repex
 open Infretis.Perm
 
-variable {p : Prop} {ra rb : List Row} {a b : St}
+variable {p : Prop} {t0 : Int} {ra rb : List Row} {a b : St}
 
-theorem swap_rel (h : ObsR p ra rb a b) (t e : Nat) : ObsR p ra rb (swap a t e) (swap b t e) :=
+theorem swap_rel (h : ObsR p t0 ra rb a b) (t e : Nat) : ObsR p t0 ra rb (swap a t e) (swap b t e) :=
   { h with W := by simp only [swap]; rw [h.W], trajs := by simp only [swap]; rw [h.trajs] }
 
-theorem lock_rel (h : ObsR p ra rb a b) (e : Nat) : RelE (ObsR p ra rb) (lock a e) (lock b e) := by
+theorem lock_rel (h : ObsR p t0 ra rb a b) (e : Nat) : RelE (ObsR p t0 ra rb) (lock a e) (lock b e) := by
   unfold lock
   rw [h.locks]
   cases hb : b.locks[e]? with
@@ -21,7 +21,7 @@ theorem lock_rel (h : ObsR p ra rb a b) (e : Nat) : RelE (ObsR p ra rb) (lock a 
       exact { h with locks := by simp only [] }
     · simp [RelE]
 
-theorem unlock_rel (h : ObsR p ra rb a b) (e : Nat) : RelE (ObsR p ra rb) (unlock a e) (unlock b e) := by
+theorem unlock_rel (h : ObsR p t0 ra rb a b) (e : Nat) : RelE (ObsR p t0 ra rb) (unlock a e) (unlock b e) := by
   unfold unlock
   rw [h.locks]
   cases hb : b.locks[e]? with
@@ -32,21 +32,21 @@ theorem unlock_rel (h : ObsR p ra rb a b) (e : Nat) : RelE (ObsR p ra rb) (unloc
     · simp only [RelE]
       exact { h with locks := by simp only [] }
 
-theorem prob_eq (h : ObsR p ra rb a b) : prob a = prob b := by
+theorem prob_eq (h : ObsR p t0 ra rb a b) : prob a = prob b := by
   unfold prob; rw [h.W, h.locks]
 
-theorem lockedPaths_eq (h : ObsR p ra rb a b) : lockedPaths a = lockedPaths b := by
+theorem lockedPaths_eq (h : ObsR p t0 ra rb a b) : lockedPaths a = lockedPaths b := by
   unfold lockedPaths; rw [h.trajs, h.locks]
 
-theorem livePaths_eq (h : ObsR p ra rb a b) : livePaths a = livePaths b := by
+theorem livePaths_eq (h : ObsR p t0 ra rb a b) : livePaths a = livePaths b := by
   unfold livePaths; rw [h.trajs]
 
 
 /-- relation on results that carry a state first and plain data after it -/
-def RS (p : Prop) (ra rb : List Row) {β : Type} (x y : St × β) : Prop := ObsR p ra rb x.1 y.1 ∧ x.2 = y.2
+def RS (p : Prop) (t0 : Int) (ra rb : List Row) {β : Type} (x y : St × β) : Prop := ObsR p t0 ra rb x.1 y.1 ∧ x.2 = y.2
 
-theorem pickCore_rel (h : ObsR p ra rb a b) (o : PickOutcome) :
-    RelE (RS p ra rb) (pickCore a o) (pickCore b o) := by
+theorem pickCore_rel (h : ObsR p t0 ra rb a b) (o : PickOutcome) :
+    RelE (RS p t0 ra rb) (pickCore a o) (pickCore b o) := by
   unfold pickCore
   simp only []
   rw [prob_eq h]
@@ -80,11 +80,11 @@ theorem pickCore_rel (h : ObsR p ra rb a b) (o : PickOutcome) :
   · simp [hc, RelE]
 
 
-theorem mkPicked_eq (h : ObsR p ra rb a b) (pairs : List (Int × Option Nat)) : mkPicked a pairs = mkPicked b pairs := by
+theorem mkPicked_eq (h : ObsR p t0 ra rb a b) (pairs : List (Int × Option Nat)) : mkPicked a pairs = mkPicked b pairs := by
   unfold mkPicked mainStream
   rw [h.entropy, h.spawned]
 
-theorem pick_rel (h : ObsR p ra rb a b) (o : PickOutcome) : RelE (RS p ra rb) (pick a o) (pick b o) := by
+theorem pick_rel (h : ObsR p t0 ra rb a b) (o : PickOutcome) : RelE (RS p t0 ra rb) (pick a o) (pick b o) := by
   unfold pick
   have h1 := pickCore_rel h o
   cases ha : pickCore a o with
@@ -107,9 +107,10 @@ theorem pick_rel (h : ObsR p ra rb a b) (o : PickOutcome) : RelE (RS p ra rb) (p
                       mainDraws := by simp only []; rw [h2.mainDraws] }
 
 
-theorem ObsR.strengthen (h : ObsR False ra rb a b) (ht : a.toinitiate = b.toinitiate) (ho : a.occ = b.occ) :
-    ObsR True ra rb a b :=
-  { h with toinitiate := fun _ => ht, occ := fun _ => ho }
+theorem ObsR.strengthen {t1 : Int} (h : ObsR False t0 ra rb a b) (ht : a.toinitiate = t1) (ht' : b.toinitiate = t1)
+    (ho : a.occ = b.occ) :
+    ObsR True t1 ra rb a b :=
+  { h with toinitiate := fun _ => ⟨ht, ht'⟩, occ := fun _ => ho }
 
 /-- the part of `prep_md_items` after the pick: pin, engines, the job record -/
 def prepTail (s1 : St) (ps : List Picked) (ds : List Draw) (pin? : Option Nat) : Except Err (St × Job × List Draw) :=
@@ -137,20 +138,20 @@ theorem prep_eq_tail (s : St) (prev : Option Nat) (o : PickOutcome) (sv : Nat) :
   rfl
 
 /-- relation after `prepTail`: observational equality except `toinitiate`, which both sides keep -/
-def RT (ra rb : List Row) (a1 b1 : St) (x y : St × Job × List Draw) : Prop :=
-  ObsR False ra rb x.1 y.1 ∧ x.1.occ = y.1.occ ∧ x.1.toinitiate = a1.toinitiate ∧ y.1.toinitiate = b1.toinitiate ∧
+def RT (t0 : Int) (ra rb : List Row) (a1 b1 : St) (x y : St × Job × List Draw) : Prop :=
+  ObsR False t0 ra rb x.1 y.1 ∧ x.1.occ = y.1.occ ∧ x.1.toinitiate = a1.toinitiate ∧ y.1.toinitiate = b1.toinitiate ∧
     x.1.cworker = a1.cworker ∧ y.1.cworker = b1.cworker ∧ x.2 = y.2
 
-theorem prepTail_rel {a1 b1 : St} (h : ObsR False ra rb a1 b1)
-    (hocc : ∀ names pin, assignEngines a1.occ names pin = assignEngines b1.occ names pin)
-    (ps : List Picked) (ds : List Draw) (pin? : Option Nat) :
-    RelE (RT ra rb a1 b1) (prepTail a1 ps ds pin?) (prepTail b1 ps ds pin?) := by
+theorem prepTail_rel {a1 b1 : St} (h : ObsR False t0 ra rb a1 b1)
+    (ps : List Picked) (ds : List Draw) (pin? : Option Nat)
+    (hocc : ∀ pin, pin? = some pin → ∀ names, assignEngines a1.occ names pin = assignEngines b1.occ names pin) :
+    RelE (RT t0 ra rb a1 b1) (prepTail a1 ps ds pin?) (prepTail b1 ps ds pin?) := by
   unfold prepTail
   cases pin? with
   | none => simp [RelE]
   | some pin =>
     simp only []
-    rw [h.ensEng, hocc]
+    rw [h.ensEng, hocc pin rfl]
     cases hae : assignEngines b1.occ (dedup ((ps.map (fun p => b1.ensEng.getD (p.ens + 1).toNat [])).flatten)) pin with
     | error e => simp [RelE]
     | ok r =>
@@ -162,8 +163,8 @@ theorem prepTail_rel {a1 b1 : St} (h : ObsR False ra rb a1 b1)
         exact { h with ensEng := rfl, occ := fun _ => rfl }
 
 
-theorem addTraj_rel (h : ObsR p ra rb a b) (ens : Int) (pn : Nat) (valid : List Rat) :
-    RelE (ObsR p ra rb) (addTraj a ens pn valid) (addTraj b ens pn valid) := by
+theorem addTraj_rel (h : ObsR p t0 ra rb a b) (ens : Int) (pn : Nat) (valid : List Rat) :
+    RelE (ObsR p t0 ra rb) (addTraj a ens pn valid) (addTraj b ens pn valid) := by
   unfold addTraj
   have hv : padValid a ens valid = padValid b ens valid := by unfold padValid; rw [h.n]
   simp only []
@@ -177,6 +178,364 @@ theorem addTraj_rel (h : ObsR p ra rb a b) (ens : Int) (pn : Nat) (valid : List 
       · simp [RelE]
       · split
         · simp [RelE]
-        · exact unlock_rel { h with trajs := rfl, W := rfl } _
+        · apply unlock_rel
+          exact { h with trajs := rfl, W := rfl, n := rfl }
+
+
+theorem perEns_rel (status : Status) : ∀ (l : List (Picked × List Rat)) (tn : Nat) {a b : St},
+    ObsR p t0 ra rb a b → RelE (RS p t0 ra rb) (treatOutput.perEns status a tn l) (treatOutput.perEns status b tn l) := by
+  intro l
+  induction l with
+  | nil => intro tn a b h; simp only [treatOutput.perEns, RelE, RS, and_true]; exact h
+  | cons hd tl ih =>
+    intro tn a b h
+    obtain ⟨pk, w⟩ := hd
+    simp only [treatOutput.perEns]
+    have h1 : ObsR p t0 ra rb { a with locked := popLocked pk.pn a.locked.length 0 a.locked }
+        { b with locked := popLocked pk.pn b.locked.length 0 b.locked } :=
+      { h with locked := by simp only []; rw [h.locked] }
+    split
+    · -- accepted
+      have h2 : ObsR p t0 ra rb
+          { a with locked := popLocked pk.pn a.locked.length 0 a.locked,
+                   frac := a.frac ++ [(tn, List.replicate a.n 0)], wts := a.wts ++ [(tn, w)] }
+          { b with locked := popLocked pk.pn b.locked.length 0 b.locked,
+                   frac := b.frac ++ [(tn, List.replicate b.n 0)], wts := b.wts ++ [(tn, w)] } :=
+        { h with locked := by simp only []; rw [h.locked],
+                 frac := by simp only []; rw [h.n]; exact h.frac.append _ _, wts := h.wts.append _ _ }
+      have h3 := addTraj_rel h2 pk.ens tn w
+      cases ha : addTraj _ pk.ens tn w with
+      | error e => rw [ha] at h3; rw [h3.error_left]; simp [RelE]
+      | ok a3 =>
+        rw [ha] at h3
+        obtain ⟨b3, hb, h4⟩ := h3.ok_left
+        rw [hb]
+        simp only []
+        have h5 := ih (tn + 1) h4
+        cases ha5 : treatOutput.perEns status a3 (tn + 1) tl with
+        | error e => rw [ha5] at h5; rw [h5.error_left]; simp [RelE]
+        | ok r =>
+          rw [ha5] at h5
+          obtain ⟨r', hb5, h6, h6'⟩ := h5.ok_left
+          rw [hb5]
+          obtain ⟨a4, tn', pns⟩ := r
+          obtain ⟨b4, tn'', pns'⟩ := r'
+          simp only [Prod.mk.injEq] at h6'
+          obtain ⟨rfl, rfl⟩ := h6'
+          simp only [RelE, RS, and_true]
+          exact h6
+    · -- rejected
+      rw [h.wts pk.pn]
+      cases hw : b.wts.lookup pk.pn with
+      | none => simp [RelE]
+      | some wOld =>
+        simp only []
+        have h3 := addTraj_rel h1 pk.ens pk.pn wOld
+        cases ha : addTraj _ pk.ens pk.pn wOld with
+        | error e => rw [ha] at h3; rw [h3.error_left]; simp [RelE]
+        | ok a3 =>
+          rw [ha] at h3
+          obtain ⟨b3, hb, h4⟩ := h3.ok_left
+          rw [hb]
+          simp only []
+          have h5 := ih tn h4
+          cases ha5 : treatOutput.perEns status a3 tn tl with
+          | error e => rw [ha5] at h5; rw [h5.error_left]; simp [RelE]
+          | ok r =>
+            rw [ha5] at h5
+            obtain ⟨r', hb5, h6, h6'⟩ := h5.ok_left
+            rw [hb5]
+            obtain ⟨a4, tn', pns⟩ := r
+            obtain ⟨b4, tn'', pns'⟩ := r'
+            simp only [Prod.mk.injEq] at h6'
+            obtain ⟨rfl, rfl⟩ := h6'
+            simp only [RelE, RS, and_true]
+            exact h6
+
+
+theorem recordFrac_go_rel (lp : List (Option Nat)) (P : Mat) : ∀ (l : List (Nat × Option Nat)) {f g : AL},
+    FEq f g → RelE FEq (recordFrac.go lp P f l) (recordFrac.go lp P g l) := by
+  intro l
+  induction l with
+  | nil => intro f g h; simpa [recordFrac.go, RelE] using h
+  | cons hd tl ih =>
+    intro f g h
+    obtain ⟨idx, live⟩ := hd
+    simp only [recordFrac.go]
+    split
+    · exact ih h
+    · cases live with
+      | none => simp [RelE]
+      | some pn =>
+        simp only []
+        have h1 := updFrac_rel h pn (P.getD idx [])
+        cases hu : updFrac f pn (P.getD idx []) with
+        | error e => rw [hu] at h1; rw [h1.error_left]; simp [RelE]
+        | ok f' =>
+          rw [hu] at h1
+          obtain ⟨g', hg, h2⟩ := h1.ok_left
+          rw [hg]
+          exact ih h2
+
+theorem recordFrac_rel (h : ObsR p t0 ra rb a b) : RelE (ObsR p t0 ra rb) (recordFrac a) (recordFrac b) := by
+  unfold recordFrac
+  simp only []
+  rw [lockedPaths_eq h, prob_eq h, livePaths_eq h]
+  have h1 := recordFrac_go_rel (lockedPaths b) (prob b) ((List.range (livePaths b).length).zip (livePaths b)) h.frac
+  cases hu : recordFrac.go (lockedPaths b) (prob b) a.frac ((List.range (livePaths b).length).zip (livePaths b)) with
+  | error e => rw [hu] at h1; rw [h1.error_left]; simp [RelE]
+  | ok f' =>
+    rw [hu] at h1
+    obtain ⟨g', hg, h2⟩ := h1.ok_left
+    rw [hg]
+    simp only [RelE]
+    exact { h with frac := h2 }
+
+theorem writeRows_rel : ∀ (pns : List Nat) {a b : St}, ObsR p t0 ra rb a b →
+    RelE (ObsR p t0 ra rb) (writeRows a pns) (writeRows b pns) := by
+  intro pns
+  induction pns with
+  | nil => intro a b h; simpa [writeRows, RelE] using h
+  | cons pn tl ih =>
+    intro a b h
+    simp only [writeRows]
+    rw [h.frac pn, h.wts pn]
+    cases hf : b.frac.lookup pn with
+    | none => simp [RelE]
+    | some f =>
+      cases hw : b.wts.lookup pn with
+      | none => simp [RelE]
+      | some w =>
+        simp only []
+        apply ih
+        obtain ⟨r, hra, hrb⟩ := h.rows
+        exact { h with frac := h.frac.filter pn, wts := h.wts.filter pn,
+                       rows := ⟨r ++ [(pn, f, w)], by simp only []; rw [hra, List.append_assoc],
+                                by simp only []; rw [hrb, List.append_assoc]⟩ }
+
+theorem sortStep_rel (h : ObsR True t0 ra rb a b) :
+    RelE (fun x y => match x, y with
+                     | none, none => True
+                     | some x, some y => ObsR True t0 ra rb x y
+                     | _, _ => False) (sortStep a) (sortStep b) := by
+  unfold sortStep needsToMove
+  simp only []
+  rw [lockedPaths_eq h, h.n, h.W, (h.toinitiate trivial).1, (h.toinitiate trivial).2, h.trajs]
+  split
+  · simp [RelE]
+  · split
+    · simp [RelE]
+    · split
+      · simp [RelE]
+      · simp only [RelE]
+        exact swap_rel h _ _
+
+theorem sortTrajstate_rel : ∀ (fuel : Nat) {a b : St}, ObsR True t0 ra rb a b →
+    RelE (RS True t0 ra rb) (sortTrajstate fuel a) (sortTrajstate fuel b) := by
+  intro fuel
+  induction fuel with
+  | zero => intro a b h; simp [sortTrajstate, RelE]
+  | succ k ih =>
+    intro a b h
+    simp only [sortTrajstate]
+    have h1 := sortStep_rel h
+    cases ha : sortStep a with
+    | error e => rw [ha] at h1; rw [h1.error_left]; simp [RelE]
+    | ok oa =>
+      rw [ha] at h1
+      obtain ⟨ob, hb, h2⟩ := h1.ok_left
+      rw [hb]
+      cases oa with
+      | none =>
+        cases ob with
+        | none => simp only [RelE, RS, and_true]; exact h
+        | some _ => exact h2.elim
+      | some a' =>
+        cases ob with
+        | none => exact h2.elim
+        | some b' =>
+          simp only []
+          have h3 := ih (a := a') (b := b') h2
+          cases ha3 : sortTrajstate k a' with
+          | error e => rw [ha3] at h3; rw [h3.error_left]; simp [RelE]
+          | ok r =>
+            rw [ha3] at h3
+            obtain ⟨r', hb3, h4, h4'⟩ := h3.ok_left
+            rw [hb3]
+            obtain ⟨a4, it⟩ := r
+            obtain ⟨b4, it'⟩ := r'
+            simp only [] at h4'
+            subst h4'
+            simp only [RelE, RS, and_true]
+            exact h4
+
+
+theorem treatOutput_rel (h : ObsR True t0 ra rb a b) (job : Job) (status : Status) (newW : List (List Rat)) (fuel : Nat) :
+    RelE (RS True t0 ra rb) (treatOutput a job status newW fuel) (treatOutput b job status newW fuel) := by
+  unfold treatOutput
+  simp only []
+  generalize (if status = .acc then newW else job.picked.map (fun _ => [])) = ws
+  split
+  · simp [RelE]
+  · rw [h.trajNum]
+    have h1 := perEns_rel status (job.picked.zip ws) b.trajNum h
+    cases ha1 : treatOutput.perEns status a b.trajNum (job.picked.zip ws) with
+    | error e => rw [ha1] at h1; rw [h1.error_left]; simp [RelE]
+    | ok r1 =>
+      rw [ha1] at h1
+      obtain ⟨r1', hb1, h2, h2'⟩ := h1.ok_left
+      rw [hb1]
+      obtain ⟨a1, tn, pns⟩ := r1
+      obtain ⟨b1, tn', pns'⟩ := r1'
+      simp only [Prod.mk.injEq] at h2'
+      obtain ⟨rfl, rfl⟩ := h2'
+      simp only [] at h2 ⊢
+      have h3 := recordFrac_rel h2
+      cases ha2 : recordFrac a1 with
+      | error e => rw [ha2] at h3; rw [h3.error_left]; simp [RelE]
+      | ok a2 =>
+        rw [ha2] at h3
+        obtain ⟨b2, hb2, h4⟩ := h3.ok_left
+        rw [hb2]
+        simp only []
+        have h5 : RelE (ObsR True t0 ra rb) (if status = .acc then writeRows a2 job.pnumOld else .ok a2)
+            (if status = .acc then writeRows b2 job.pnumOld else .ok b2) := by
+          split
+          · exact writeRows_rel _ h4
+          · exact h4
+        cases ha3 : (if status = .acc then writeRows a2 job.pnumOld else Except.ok a2) with
+        | error e => rw [ha3] at h5; rw [h5.error_left]; simp [RelE]
+        | ok a3 =>
+          rw [ha3] at h5
+          obtain ⟨b3, hb3, h6⟩ := h5.ok_left
+          rw [hb3]
+          simp only []
+          have h7 := sortTrajstate_rel fuel h6
+          cases ha4 : sortTrajstate fuel a3 with
+          | error e => rw [ha4] at h7; rw [h7.error_left]; simp [RelE]
+          | ok r4 =>
+            rw [ha4] at h7
+            obtain ⟨r4', hb4, h8, h8'⟩ := h7.ok_left
+            rw [hb4]
+            obtain ⟨a4, it⟩ := r4
+            obtain ⟨b4, it'⟩ := r4'
+            simp only [] at h8'
+            subst h8'
+            simp only [RelE, RS, and_true]
+            exact { h8 with trajNum := rfl }
+
+theorem loop_rel (h : ObsR p t0 ra rb a b) : ObsR p t0 ra rb (loop a).1 (loop b).1 ∧ (loop a).2 = (loop b).2 := by
+  unfold loop
+  rw [h.cstep, h.tsteps]
+  split
+  · exact ⟨h, rfl⟩
+  · exact ⟨{ h with cstep := rfl, tsteps := rfl }, rfl⟩
+
+
+theorem prepTail_rel_strict {a1 b1 : St} (h : ObsR True t0 ra rb a1 b1)
+    (ps : List Picked) (ds : List Draw) (pin? : Option Nat) :
+    RelE (RS True t0 ra rb) (prepTail a1 ps ds pin?) (prepTail b1 ps ds pin?) := by
+  have h1 := prepTail_rel (h.weaken (p := False)) ps ds pin? (fun pin _ names => by rw [h.occ trivial])
+  cases ha : prepTail a1 ps ds pin? with
+  | error e => rw [ha] at h1; rw [h1.error_left]; simp [RelE]
+  | ok r =>
+    rw [ha] at h1
+    obtain ⟨r', hb, h2, ho, hta, htb, _, _, hj⟩ := h1.ok_left
+    rw [hb]
+    simp only [RelE, RS]
+    exact ⟨h2.strengthen (hta.trans (h.toinitiate trivial).1) (htb.trans (h.toinitiate trivial).2) ho, hj⟩
+
+/-- `prep_md_items` once the initiation is closed (`toinitiate = -1`): the plain `pick` branch -/
+theorem prep_closed_rel (h : ObsR True t0 ra rb a b) (ht : t0 < 0) (prev : Option Nat) (o : PickOutcome) (sv : Nat) :
+    RelE (RS True t0 ra rb) (prep a prev o sv) (prep b prev o sv) := by
+  rw [prep_eq_tail, prep_eq_tail]
+  have hta : ¬ a.toinitiate ≥ 0 := by rw [(h.toinitiate trivial).1]; omega
+  have htb : ¬ b.toinitiate ≥ 0 := by rw [(h.toinitiate trivial).2]; omega
+  simp only [hta, htb, if_false]
+  have h1 := pick_rel h o
+  cases ha : pick a o with
+  | error e => rw [ha] at h1; rw [h1.error_left]; simp [RelE]
+  | ok r =>
+    rw [ha] at h1
+    obtain ⟨r', hb, h2, h2'⟩ := h1.ok_left
+    rw [hb]
+    obtain ⟨a1, ps, ds⟩ := r
+    obtain ⟨b1, ps', ds'⟩ := r'
+    simp only [Prod.mk.injEq] at h2'
+    obtain ⟨rfl, rfl⟩ := h2'
+    exact prepTail_rel_strict h2 ps ds prev
+
+/-- two scheduler states: related samplers, the same jobs in flight -/
+def RY (t0 : Int) (ra rb : List Row) (x y : Sys) : Prop := ObsR True t0 ra rb x.s y.s ∧ x.jobs = y.jobs
+
+theorem sysStep_step_rel {x y : Sys} (h : RY t0 ra rb x y) (ht : t0 < 0)
+    (k : Nat) (status : Status) (newW : List (List Rat)) (o : PickOutcome) :
+    RelE (RY t0 ra rb) (sysStep x (.step k status newW o)) (sysStep y (.step k status newW o)) := by
+  obtain ⟨hs, hj⟩ := h
+  simp only [sysStep]
+  obtain ⟨hl, hgo⟩ := loop_rel hs
+  rw [hgo, hj]
+  split
+  · simp [RelE]
+  · cases hk : y.jobs[k]? with
+    | none => simp [RelE]
+    | some job =>
+      simp only []
+      have hf : sortFuel (loop x.s).1 = sortFuel (loop y.s).1 := by unfold sortFuel; rw [hl.n]
+      rw [hf]
+      have h1 := treatOutput_rel hl job status newW (sortFuel (loop y.s).1)
+      cases ha : treatOutput (loop x.s).1 job status newW (sortFuel (loop y.s).1) with
+      | error e => rw [ha] at h1; rw [h1.error_left]; simp [RelE]
+      | ok r =>
+        rw [ha] at h1
+        obtain ⟨r', hb, h2, _⟩ := h1.ok_left
+        rw [hb]
+        obtain ⟨a2, pns, it⟩ := r
+        obtain ⟨b2, pns', it'⟩ := r'
+        simp only [] at h2 ⊢
+        rw [h2.cstep, h2.workers, h2.tsteps]
+        split
+        · have h3 := prep_closed_rel h2 ht (some job.pin) o 0
+          cases ha3 : prep a2 (some job.pin) o with
+          | error e => rw [ha3] at h3; rw [h3.error_left]; simp [RelE]
+          | ok r3 =>
+            rw [ha3] at h3
+            obtain ⟨r3', hb3, h4, h4'⟩ := h3.ok_left
+            rw [hb3]
+            obtain ⟨a3, job3, ds⟩ := r3
+            obtain ⟨b3, job3', ds'⟩ := r3'
+            simp only [Prod.mk.injEq] at h4'
+            obtain ⟨rfl, rfl⟩ := h4'
+            simp only [RelE, RY, and_true]
+            exact h4
+        · simp only [RelE, RY, and_true]
+          exact h2
+
+/-- a whole run of `.step` events -/
+def StepsOnly : List Ev → Prop
+  | [] => True
+  | .step _ _ _ _ :: rest => StepsOnly rest
+  | _ :: _ => False
+
+theorem run_steps_rel : ∀ (evs : List Ev) {x y : Sys}, StepsOnly evs → RY t0 ra rb x y → t0 < 0 →
+    RelE (RY t0 ra rb) (run x evs) (run y evs) := by
+  intro evs
+  induction evs with
+  | nil => intro x y _ h _; simpa [run, RelE] using h
+  | cons ev rest ih =>
+    intro x y hs h ht
+    cases ev with
+    | start o sv => exact hs.elim
+    | initDone => exact hs.elim
+    | step k st w o =>
+      simp only [run]
+      have h1 := sysStep_step_rel h ht k st w o
+      cases ha : sysStep x (.step k st w o) with
+      | error e => rw [ha] at h1; rw [h1.error_left]; simp [RelE]
+      | ok x' =>
+        rw [ha] at h1
+        obtain ⟨y', hb, h2⟩ := h1.ok_left
+        rw [hb]
+        exact ih hs h2 ht
 
 end Infretis.Repex
